@@ -1,7 +1,7 @@
 (* C05 - an @expression ends exactly where the documentation says.  Theorems only. *)
 From Coq Require Import Lia.
 From Ructe Require Import Nom NomFacts Utf8 Spacelike Expression TemplateExpr Template Emit Compile
-                          ParserProofs SpaceProofs TextProofs ExprProofs EmitProofs.
+                          ParserProofs SpaceProofs TextProofs ExprProofs EmitProofs RoundTrip ExprComplete FuelFacts FuelProofs.
 Local Open Scope list_scope.
 
 (* on EVERY input: the fragment taken is a non-empty, valid UTF-8 prefix of the input, and it is
@@ -11,6 +11,55 @@ Theorem expression_sound_and_maximal : forall n i e r,
   expression (expr_gram (S n)) i = Ok e r ->
   i = e ++ r /\ e <> [] /\ utf8_valid e = true /\ exists err, postfix_alt (expr_gram n) r = Err err.
 Proof. exact expression_spec. Qed.
+
+(* completeness: the declarative grammar [XE] (Proofs/ExprComplete.v) is the documented form -- an
+   optional & or * prefix; a name, number, string literal, ( ) or [ ] group; any chain of .member,
+   ::path, ( ), { }, [ ], !( ), ![ ] whose groups are balanced, with string literals and block
+   comments hiding the delimiters they contain and a `/` that opens no comment standing for
+   itself.  `expression` takes exactly the text the grammar derives, at the fuel n of the derivation *)
+Theorem expression_complete : forall n i r, XE n i r -> expression (expr_gram n) i = Ok (slice i r) r.
+Proof. intros n i r H. exact (proj1 expr_complete n i r H). Qed.
+
+(* at the fuel of the derivation and at every larger one (more fuel never changes an answer) *)
+Theorem expression_complete_any_fuel : forall n m i r, XE n i r -> n <= m -> expression (expr_gram m) i = Ok (slice i r) r.
+Proof.
+  intros n m i r H Hm. unfold expression. rewrite (expr_gram_mono n m Hm NExpr i); [exact (proj1 expr_complete n i r H)|].
+  rewrite (proj1 expr_complete n i r H). discriminate.
+Qed.
+
+(* ... and `@( .. )` scans exactly the items up to the parenthesis that closes it *)
+Theorem paren_scan_complete : forall n i r, XIs false (S n) i (41%N :: r) -> utf8_valid (slice i (41%N :: r)) = true ->
+  expr_inside_parens (expr_gram (S (S n))) i = Ok (slice i (41%N :: r)) (41%N :: r).
+Proof. intros n i r H V. exact (inside_complete n i r H V). Qed.
+
+(* the chain ends, and literal text begins, wherever no postfix form starts: at the end of input;
+   before any byte other than . : ( { [ ! ; before a `.` or `::` that is not followed by the start
+   of an expression (`@a.`, `@a.@a`, `@a. b`, `@a.<`); before a `!` not followed by ( or [ *)
+Theorem chain_stops : forall n r, xstop r -> exists e, postfix_alt (fun y j => expr_gram (S (S n)) y j) r = Err e.
+Proof. exact postfix_stops. Qed.
+
+(* together with the template level: `@` followed by a derivable expression is one Expr node holding exactly that text *)
+Theorem at_expression_complete : forall n ln m i r, XE n i r -> dispatch (64%N :: i) = Ok [] i ->
+  texpr_gram (expr_gram n) ln (S m) TE (64%N :: i) = Ok (TExpr (slice i r)) r.
+Proof.
+  intros n ln m i r H D.
+  apply (proj1 (grammar_complete (expr_gram n) (good_expr_gram n) ln) 0 _ _ _ (PI_expr _ ln 0 _ _ _ D (expression_complete n i r H))). lia.
+Qed.
+
+(* expression x follower: derivations for the documented shapes, found greedily like the parser *)
+Example expression_follower_grid :
+  XE 12 (b "a.@a") (b ".@a") /\ XE 12 (b "a.") (b ".") /\ XE 12 (b "a. b") (b ". b") /\ XE 12 (b "a.len()") (b "") /\
+  XE 12 (b "a.b::c(d[e{f}])![g]<i>") (b "<i>") /\ XE 12 (b "f("")}]"" /* ) */)x") (b "x") /\
+  XE 12 (b "&xs[1..].iter().map(|x| x / 2).len() as") (b " as") /\ XE 12 (b "n}") (b "}") /\ XE 12 (b "s,") (b ",") /\
+  XE 12 (b "vec![1, 2][0]@") (b "@") /\ XE 12 (b "P{a: 3, b: 4}.a)") (b ")") /\ XE 12 (b """a\""b\\""::<") (b "::<") /\
+  XIs false 9 (b "x/""s"".len() /* ) **/ + [1, 2][0])|") (b ")|").
+Proof.
+  repeat split;
+    match goal with
+    | |- XE _ ?i ?r => concrete i; concrete r; xe
+    | |- XIs _ _ ?i ?r => concrete i; concrete r; xis
+    end.
+Qed.
 
 Section C05.
   Variable E : nt -> parser bytes.
@@ -54,6 +103,12 @@ Example doc_examples :
 Proof. vm_compute. repeat split; reflexivity. Qed.
 
 Redirect "assumptions/C05.expression_sound_and_maximal" Print Assumptions expression_sound_and_maximal.
+Redirect "assumptions/C05.expression_complete" Print Assumptions expression_complete.
+Redirect "assumptions/C05.expression_complete_any_fuel" Print Assumptions expression_complete_any_fuel.
+Redirect "assumptions/C05.paren_scan_complete" Print Assumptions paren_scan_complete.
+Redirect "assumptions/C05.chain_stops" Print Assumptions chain_stops.
+Redirect "assumptions/C05.at_expression_complete" Print Assumptions at_expression_complete.
+Redirect "assumptions/C05.expression_follower_grid" Print Assumptions expression_follower_grid.
 Redirect "assumptions/C05.paren_expression" Print Assumptions paren_expression.
 Redirect "assumptions/C05.division_is_transparent" Print Assumptions division_is_transparent.
 Redirect "assumptions/C05.fragment_verbatim_once" Print Assumptions fragment_verbatim_once.
